@@ -558,9 +558,10 @@ func (p Parameters) QiOverflowMargin(level int) int {
 }
 
 // PiOverflowMargin returns floor(2^64 / max(Pi)), i.e. the number of times elements of Z_max{Pi} can
-// be added together before overflowing 2^64. The function returns -1 if the moduli array is empty.
+// be added together before overflowing 2^64. The function returns -1 if the moduli array is empty
+// (no auxiliary modulus, or level = -1: an evaluation key generated without P).
 func (p Parameters) PiOverflowMargin(level int) int {
-	if len(p.pi) == 0 {
+	if len(p.pi) == 0 || level < 0 {
 		return -1
 	}
 	return int(math.Exp2(64) / float64(slices.Max(p.pi[:level+1])))
